@@ -746,3 +746,92 @@ func c07Exhaustive(c *Ctx) {
 			fmt.Sprintf("%d classes handled", len(h)), "storage classes produced by NewKey but not handled here: "+strings.Join(missing, ", "))
 	}
 }
+
+// ---- C07.rank-injective: distinct storage classes get distinct ranks -------------------------------
+
+func init() {
+	register(&Rule{Name: "C07.rank-injective", Min: 1, Run: c07RankInjective,
+		Doc: "typeIndex assigns a different rank to every storage class (orderType relies on it to put the operands into the order Order's branches assume)"})
+	byProp["C07"] = append(byProp["C07"], "C07.rank-injective")
+	byProp["C06"] = append(byProp["C06"], "C07.rank-injective")
+	explain["C07"] += " rank-injective: the class ranks extracted from typeIndex are pairwise distinct and increase in the order in which Order tests the classes (with equal ranks orderType stops normalising mixed pairs and Order(REAL, INT) falls through to a constant)."
+}
+
+func c07RankInjective(c *Ctx) {
+	const rule = "C07.rank-injective"
+	names, typeField := protoTypeNames(c)
+	ti := mustFunc(c, "", "", "typeIndex")
+	order := mustFunc(c, "", "*Key", "Order")
+	if names == nil || typeField == nil || ti == nil || order == nil {
+		return
+	}
+	rank := map[int64]int64{}
+	ok := true
+	tagWalk(ti, typeField, func(in ssa.Instruction, f tagFacts) {
+		ret, isRet := in.(*ssa.Return)
+		if !isRet || len(f) != 1 {
+			return
+		}
+		k, isC := ret.Results[0].(*ssa.Const)
+		if !isC || k.Value == nil {
+			ok = false
+			return
+		}
+		for _, tag := range f {
+			rank[tag] = k.Int64()
+		}
+	})
+	if !ok || len(rank) < 4 {
+		c.R.Unk(rule, core.FuncName(ti)+": rank table", c.P.Pos(ti.Pos()), fmt.Sprintf("cannot extract a constant rank per storage class from typeIndex (%d classes found)", len(rank)))
+		return
+	}
+	// injective
+	seen := map[int64]int64{}
+	var dup []string
+	for tag, r := range rank {
+		if other, ok := seen[r]; ok {
+			a, b := names[tag], names[other]
+			if a > b {
+				a, b = b, a
+			}
+			dup = append(dup, fmt.Sprintf("%s and %s both have rank %d", a, b, r))
+		}
+		seen[r] = tag
+	}
+	sort.Strings(dup)
+	c.R.Cond(len(dup) == 0, rule, core.FuncName(ti)+": distinct classes have distinct ranks", c.P.Pos(ti.Pos()),
+		fmt.Sprintf("%d classes, %d ranks", len(rank), len(seen)), strings.Join(dup, "; ")+": orderType no longer puts a mixed pair into the order Order's branches assume, so Order(x, y) and Order(y, x) disagree (not antisymmetric)")
+	// the order in which Order tests the first operand's class is the rank order
+	var tested []int64
+	seenT := map[int64]bool{}
+	var base string
+	for _, b := range order.Blocks {
+		iff, isIf := b.Instrs[len(b.Instrs)-1].(*ssa.If)
+		if !isIf {
+			continue
+		}
+		bs, k, _, isT := typeTest(iff, typeField)
+		if !isT {
+			continue
+		}
+		if base == "" {
+			base = bs
+		}
+		if bs == base && !seenT[k] {
+			seenT[k] = true
+			tested = append(tested, k)
+		}
+	}
+	mono := len(tested) >= 3
+	for i := 1; i < len(tested); i++ {
+		if rank[tested[i-1]] >= rank[tested[i]] {
+			mono = false
+		}
+	}
+	var ts []string
+	for _, k := range tested {
+		ts = append(ts, fmt.Sprintf("%s(rank %d)", names[k], rank[k]))
+	}
+	c.R.Cond(mono, rule, core.FuncName(order)+": classes are tested in rank order", c.P.Pos(order.Pos()),
+		strings.Join(ts, " < "), "Order tests the first operand's class in the order "+strings.Join(ts, ", ")+", which is not increasing in typeIndex rank: a normalised pair can reach a branch that assumes the opposite order")
+}
